@@ -44,6 +44,8 @@ package goja
 //@   ensures vm.tryStack[len(vm.tryStack)-1].sp == int32(vm.sp) && vm.tryStack[len(vm.tryStack)-1].stash == vm.stash && vm.tryStack[len(vm.tryStack)-1].privEnv == vm.privEnv [snapshot-registers]
 //@   ensures int(vm.tryStack[len(vm.tryStack)-1].callStackLen) == len(vm.callStack) && int(vm.tryStack[len(vm.tryStack)-1].iterLen) == len(vm.iterStack) && int(vm.tryStack[len(vm.tryStack)-1].refLen) == len(vm.refStack) [snapshot-stack-heights]
 //@   ensures vm.tryStack[len(vm.tryStack)-1].catchPos == catchPos && vm.tryStack[len(vm.tryStack)-1].finallyPos == finallyPos && vm.tryStack[len(vm.tryStack)-1].finallyRet == -1 && vm.tryStack[len(vm.tryStack)-1].exception == nil [handlers]
+//@   ensures forall m int :: 0 <= m && m < old(len(vm.tryStack)) ==> vm.tryStack[m].catchPos == old(vm.tryStack[m].catchPos) [frames-below-kept]
+//@   assigns vm.tryStack, elems(vm.tryStack)
 
 //@ func (*vm).popTryFrame
 //@   props C03 C08
@@ -51,7 +53,25 @@ package goja
 //@   ensures len(vm.tryStack) == old(len(vm.tryStack))-1 && samearray(vm.tryStack, old(vm.tryStack)) && sliceoff(vm.tryStack, old(vm.tryStack)) == 0 [one-less]
 //@   assigns vm.tryStack
 
+// The VM and its runtime are wired together once.
+//@ stable vm.r
+
 // ---- unwinding
+
+// Marker frames (catchPos == tryPanicMarker) delimit the regions entered from Go (try, runTry, a Go
+// call of a script function, a generator step). Unwinding never removes or creates one: only the
+// function that pushed a marker pops it.
+//@ define markersKept = forall m int :: 0 <= m && m < old(len(vm.tryStack)) && old(vm.tryStack[m].catchPos) == tryPanicMarker ==> m < len(vm.tryStack) && vm.tryStack[m].catchPos == tryPanicMarker
+//@ define noNewMarkers = forall m int :: 0 <= m && m < len(vm.tryStack) && vm.tryStack[m].catchPos == tryPanicMarker ==> m < old(len(vm.tryStack)) && old(vm.tryStack[m].catchPos) == tryPanicMarker
+
+// Assumed about unknown code (script, callbacks) that ends in a panic instead of completing: the
+// registers and the frames it pushed are left as they were at the point of the panic, but the
+// markers that existed are still in place and no marker is left behind above them (guarantee side:
+// the ensures_abrupt clauses of every function that pushes a marker).
+//@ abrupthavoc vm.tryStack vm.callStack vm.stash vm.privEnv tryFrame.exception tryFrame.callStackLen tryFrame.iterLen tryFrame.refLen tryFrame.sp tryFrame.stash tryFrame.privEnv tryFrame.catchPos tryFrame.finallyPos tryFrame.finallyRet
+//@ abruptrely *vm vm @markersKept
+//@ abruptrely *vm vm forall k int :: 0 <= k && k < len(vm.tryStack) ==> vm.tryStack[k].sp >= 0
+//@ abruptrely *vm vm @noNewMarkers
 
 // Assumed (the induction hypothesis of C03 for nested execution): script run from inside the VM
 // (iterator return() in restoreStacks, callbacks) leaves the registers and the existing try frames
@@ -64,6 +84,7 @@ package goja
 // heights on every returning path.
 //@ func (*vm).restoreStacks
 //@   props C03 C08
+//@   maypanic
 //@   requires vm != nil
 //@   loop 1 invariant true [closing-iterators]
 //@   loop 2 invariant true [clearing-references]
@@ -78,7 +99,12 @@ package goja
 //@   requires forall k int :: 0 <= k && k < len(vm.tryStack) ==> vm.tryStack[k].sp >= 0 [frames-wf]
 //@   loop 1 vars ex *Exception
 //@   loop 1 invariant forall k int :: 0 <= k && k < len(vm.tryStack) ==> vm.tryStack[k].sp >= 0 [frames-wf]
+//@   loop 1 invariant len(vm.tryStack) <= old(len(vm.tryStack)) && samearray(vm.tryStack, old(vm.tryStack)) && sliceoff(vm.tryStack, old(vm.tryStack)) == 0 [only-pops]
+//@   loop 1 invariant @markersKept [markers-kept]
+//@   loop 1 invariant @noNewMarkers [no-new-markers]
 //@   loop 1 invariant (specThrownKind(arg) == 0 ==> ex == nil) && (specThrownKind(arg) == 1 ==> ex != nil && same(ex.val, specThrownValue(arg))) && (specThrownKind(arg) == 2 ==> ex == specThrownException(arg)) [ex-classified]
+//@   site restoreStacks#1 vars ex *Exception, tf *tryFrame
+//@   site restoreStacks#1 requires ex != nil || len(vm.iterStack) <= int(tf.iterLen) [uncatchable-errors-close-no-iterator]
 //@   exitvars ex *Exception, tf *tryFrame
 //@   ensures specThrownKind(arg) != 0 [only-js-errors-are-delivered]
 //@   ensures result != nil ==> result == ex [unhandled-is-returned]
@@ -86,12 +112,19 @@ package goja
 //@   ensures result == nil ==> vm.stash == tf.stash && vm.privEnv == tf.privEnv && int(tf.callStackLen) >= len(vm.callStack) && len(vm.iterStack) == int(tf.iterLen) && len(vm.refStack) == int(tf.refLen) [registers-of-catching-frame]
 //@   ensures result == nil ==> vm.sp == int(tf.sp) || vm.sp == int(tf.sp)+1 && same(vm.stack[vm.sp-1], ex.val) [stack-height-restored]
 //@   ensures_panic same(panicValue, arg) && specThrownKind(arg) != 1 [rethrows-same-value]
+//@   ensures len(vm.tryStack) <= old(len(vm.tryStack)) [only-pops]
+//@   ensures @markersKept [never-pops-a-marker]
+//@   ensures @noNewMarkers [no-new-markers]
+//@   ensures result != nil ==> len(vm.tryStack) == 0 || vm.tryStack[len(vm.tryStack)-1].catchPos == tryPanicMarker [unhandled-stops-at-nearest-marker]
+//@   ensures_abrupt @markersKept [never-pops-a-marker]
+//@   ensures_abrupt @noNewMarkers [no-new-markers]
 
 // ---- interrupts (C15, sequential part): the run loop polls the interrupt flag with an atomic load
 // immediately before every instruction it executes - no instruction runs on a stale poll - and an
 // interrupt is delivered as an InterruptedError carrying the value written under the lock.
 //@ func (*vm).run
 //@   props C15
+//@   maypanic
 //@   requires vm != nil && vm.prg != nil
 //@   loop 1 vars count int
 //@   loop 1 invariant count >= 0 [counter]
@@ -172,3 +205,11 @@ package goja
 //@   props C15 C14
 //@   trusted
 //@   assigns nothing
+
+// ---- protected regions (defer/recover): a region pushes its marker frame and removes it on every
+// way out, returning or panicking, so that the enclosing region's handler finds its own marker.
+//@ func (*vm).try
+//@   props C03
+//@   requires vm != nil && vm.r != nil && len(vm.callStack) <= math.MaxInt32 && len(vm.iterStack) <= math.MaxInt32 && len(vm.refStack) <= math.MaxInt32 && vm.sp >= 0 && vm.sp <= math.MaxInt32
+//@   ensures len(vm.tryStack) == old(len(vm.tryStack)) [marker-popped]
+//@   ensures_abrupt len(vm.tryStack) == old(len(vm.tryStack)) [marker-popped-on-panic]
